@@ -499,7 +499,8 @@ class ApplyLinks(Processor):
         # nodes
         for inter_type in self.applied_links:
             for atoms, (interaction, citation) in self.applied_links[inter_type].items():
-                if not any(atom in self.nodes_to_remove for atom in atoms):
+                # the last element of the key is the version of the term, not an atom
+                if not any(atom in self.nodes_to_remove for atom in atoms[:-1]):
                     meta_molecule.molecule.interactions[inter_type].append(interaction)
                     meta_molecule.molecule.citations.update(citation)
 
